@@ -1188,9 +1188,14 @@ def ival(F, fn, ap, depth=0, bb=None):
                 src = src[0][2][0]
             for g in fn.guards_of(bb):
                 d = fn.guard_desc(g)
-                if d[0] == "bool" and d[2] is True and d[1][0][0] == "binop" and d[1][0][1] == "Eq" and not d[1][1]:
+                # `s.len() == k` on its true edge, or `s.len() != k` on its false edge (the early-return form)
+                if d[0] == "bool" and d[1][0][0] == "binop" and not d[1][1] and ((d[1][0][1] == "Eq" and d[2] is True) or (d[1][0][1] == "Ne" and d[2] is False)):
                     x, y = d[1][0][2], d[1][0][3]
-                    if y[0][0] == "const" and isinstance(y[0][1], int) and 1 <= y[0][1] <= 18 and x[0][0] == "call" and x[0][1].endswith("String::len") and x[0][2][0] == src:
+                    xs = x[0][2][0] if x[0][0] == "call" and x[0][2] else None
+                    while xs is not None and xs[0][0] == "call" and xs[0][1].endswith(("Clone>::clone", "Deref>::deref", "::as_str", "Borrow<str>>::borrow")) and not xs[1]:
+                        xs = xs[0][2][0]
+                    if y[0][0] == "const" and isinstance(y[0][1], int) and 1 <= y[0][1] <= 18 and x[0][0] == "call" and x[0][1].endswith(("String::len", "str::<impl str>::len")) \
+                            and xs is not None and facts.ap_match(xs, src):
                         k_ = y[0][1]
                         return (-(10 ** k_ - 1), 10 ** k_ - 1)
     return None
